@@ -718,6 +718,11 @@ FAMILIES = {
     # per store: rusty_pool runs up to its core size directly)
     "task_storm": (dict(policies=["block"], caps=[16], directs=(0, 1), reducers=(1, 1), mws=(0, 0), keep=0.0,
                         ops={"tk": 10, "th": 6}, max_ops=4, max_threads=3), 0),
+    # engine F: subscribers that unsubscribe from inside their callback (cbun lines)
+    "cb_unsub_direct": (dict(policies=["block"], caps=[4, 16], directs=(2, 3), reducers=(1, 1), mws=(0, 0), keep=0.0,
+                             ops={"d": 10, "gs": 1}, max_ops=5, max_threads=2), 0),
+    "cb_unsub_chan": (dict(policies=["block"], caps=[4, 16], directs=(0, 1), chans=(2, 2), chan_pols=["block"],
+                           reducers=(1, 1), mws=(0, 0), keep=0.0, ops={"d": 10, "gs": 1}, max_ops=5, max_threads=2), 0),
     "metrics": (dict(policies=ALLPOL, directs=(0, 2), reducers=(0, 2), effects=0.2, verdict=0.3,
                      ops={"d": 12, "gm": 3, "close": 1}, max_ops=5, mws=(0, 2), max_threads=3), 15),
 }
@@ -762,6 +767,30 @@ def nested_extra(sc, rng):
     return "\n".join(out)
 
 
+def cbun_extra(sc, rng):
+    """`cbun` lines: a subscriber unsubscribes another one (direct ones: possibly itself) from inside
+    its callback; a channeled target is made slow so that it has a backlog when it is released"""
+    directs, chans, acts = [], [], []
+    for ln in sc.split("\n"):
+        w = ln.split()
+        if w and w[0] == "sub" and w[2] == "direct":
+            directs.append(int(w[1]))
+        if w and w[0] == "sub" and w[2] == "chan":
+            chans.append(int(w[1]))
+        if w and w[0] == "t":
+            acts += [int(o.split(".")[2]) for o in w[2:] if o.startswith("d.")]
+    if not acts:
+        return ""
+    out = []
+    if len(chans) >= 2:
+        u, v = rng.sample(chans, 2)
+        out += ["cbun %d %d %d" % (u, rng.choice(acts), v), "delay notify %d 0 %d" % (v, rng.choice([300, 1000]))]
+    elif directs:
+        u = rng.choice(directs)
+        out.append("cbun %d %d %d" % (u, rng.choice(acts), rng.choice(directs)))
+    return "\n".join(out)
+
+
 # engine F: (family, extra scenario lines, quick count, thorough count)
 PROPERTY_FREE = {
     "C01": [("mp_dispatch", "", 200, 4000),
@@ -779,11 +808,13 @@ PROPERTY_FREE = {
             ("readers", "free readers 2\nfree cbread", 100, 2000)],
     "C09": [("subs_lifecycle", "", 200, 4000),
             # a slow release at shutdown and a slow channeled consumer: unsubscribe() racing stop()
-            ("shutdown_unsub", "delay unsub 1 0 1500\ndelay notify 2 0 400\ndelay notify 3 0 400\ndelay notify 4 0 400", 150, 3000)],
+            ("shutdown_unsub", "delay unsub 1 0 1500\ndelay notify 2 0 400\ndelay notify 3 0 400\ndelay notify 4 0 400", 150, 3000),
+            ("cb_unsub_direct", cbun_extra, 100, 2000)],
     "C10": [("channeled", "", 200, 4000),
             # slow channeled consumers: full subscription queues at unsubscribe / stop
-            ("channeled", "delay notify 2 0 300\ndelay notify 3 0 300", 150, 3000)],
-    "C11": [("effects", "", 200, 4000), ("task_storm", "", 150, 3000)],
+            ("channeled", "delay notify 2 0 300\ndelay notify 3 0 300", 150, 3000),
+            ("cb_unsub_chan", cbun_extra, 100, 2000)],
+    "C11": [("effects", "", 200, 4000), ("task_storm", "", 600, 6000)],
     "C14": [("iterators", "", 100, 2000)],
     "C15": [("droppable", "", 200, 4000)],
     "C18": [("metrics", "", 200, 4000)],
